@@ -445,6 +445,138 @@ def _gen_dot_spec(rng, i, host, DOTPATHS):
     return sp
 
 
+# ----------------------------------------------------------------------------- locations that look like context markers
+
+LATER_MARKERS = frozenset(["sos_commands", "JBOSS_HOME"])      # markers of the context classes registered after SerializedArchiveContext
+MARKNAMES = ["sos_commandsX", "xsos_commands", "sos_commands.d", "sos_commands ", "JBOSS_HOME2", "_JBOSS_HOME", "jboss_home",
+             "insights_archive.txt", "insights_archive.txt", "insights_archive.txt.d", "insights_commands", "insights_commands",
+             "meta_data", "data", "insights_containers", "sos_commands_", "SOS_COMMANDS"]
+MARKPATHS = ["/var/sos_commandsX/f", "/etc/insights_archive.txt", "/x/insights_commands/y", "/opt/JBOSS_HOME2/bin", "/data/meta_data/z",
+             "/a/xsos_commands/b", "/insights_archive.txt", "/srv/sos_commands.d/q", "/meta_data/insights_archive.txt"]
+REALMARKS = ["sos_commands", "JBOSS_HOME"]
+
+
+def gen_marker_world(rng, wid):
+    """archives whose persisted locations carry the names archive detection looks for (insights_archive.txt, insights_commands,
+    sos_commands, JBOSS_HOME) as whole components or as near misses; one in six has a REAL later marker (known finding's shape)"""
+    host = rng.random() < 0.6
+    real = rng.random() < 0.17
+    names = MARKNAMES + (REALMARKS * 6 if real else [])
+    paths = MARKPATHS + (["/var/sos_commands/f", "/opt/JBOSS_HOME/standalone/x", "/sos_commandsX/sos_commands/f"] * 3 if real else [])
+    specs = [gen_dot_spec(rng, i, host, names=names, paths=paths) for i in range(rng.choice([1, 2, 3, 4]))]
+    return {"id": wid, "host": host, "specs": specs, "seed": rng.getrandbits(32), "pool": 0, "dots": True, "markers": True}
+
+
+def _detect_impl(files, root, on_disk, extras):
+    """-> (context class name, root) or None for InvalidArchive; anything else the implementation raises propagates"""
+    from insights.core.exceptions import InvalidArchive
+    if on_disk:                      # (harness's own file operations first, outside the implementation call)
+        os.makedirs(root, exist_ok=True)
+        for f in files:
+            os.makedirs(os.path.dirname(f), exist_ok=True)
+            open(f, "w").close()
+        if extras:                   # links and empty directories are no files of the archive
+            os.makedirs(os.path.join(root, "data", "emptydir", "sos_commands"), exist_ok=True)
+            link = os.path.join(root, "JBOSS_HOME")
+            if not os.path.lexists(link):
+                os.symlink(files[0], link)
+    try:
+        if on_disk:
+            ctx = hydration.create_context(root)
+            got = (type(ctx).__name__, getattr(ctx, "root", None))
+        else:
+            if not files:
+                return None                                   # create_context's own "No files in archive", before identify
+            r_, c_ = hydration.identify(list(files))
+            got = (getattr(c_, "__name__", None), r_)
+    except InvalidArchive:
+        return None
+    if not (isinstance(got[0], str) and isinstance(got[1], str)):
+        raise TypeError("detection returned %r" % (got,))
+    return got
+
+
+def stream_detect(chk, n):
+    """ExecutionContextMeta.identify / hydration.identify / create_context as functions of the list of file paths, against the
+    model's createContext over the REAL registry (names and markers read from the implementation at run time)"""
+    rng = chk.rng
+    from insights.core.context import ExecutionContextMeta
+    from insights.core.exceptions import InvalidArchive
+    try:
+        reg = [(c.__name__, c.marker) for c in ExecutionContextMeta.registry]
+        if not all(isinstance(n_, str) and (m_ is None or isinstance(m_, str)) for n_, m_ in reg):
+            raise TypeError("registry entries are not (name, marker)")
+    except Exception as ex:
+        chk.failure("the context registry cannot be read: %s: %s" % (type(ex).__name__, ex), {"op": "detect", "files": []})
+        return
+    reg_field = ";".join("%s=%s" % (enc(n_), "!" if m_ is None else enc(m_)) for n_, m_ in reg)
+    later = set()
+    seen_ser = False
+    for n_, m_ in reg:
+        if n_ == "SerializedArchiveContext":
+            seen_ser = True
+        elif seen_ser and m_:
+            later.add(m_.lstrip("/"))
+    comps = MARKNAMES + REALMARKS * 2 + ["a", "b", "etc", "var", "x.conf", "é", "ls_-l", "c1"]
+    cases, impl, lines, roots = [], [], [], []
+    tmp = tempfile.mkdtemp(prefix="c11d-")
+    try:
+        for i in range(n):
+            on_disk = i % 5 == 0
+            root = (os.path.join(tmp, "w%d" % i) if on_disk else "/t%d" % i) + "".join("/" + rng.choice(["arch", "insights-h-1", "r", "x.d"])
+                                                                                   for _ in range(rng.choice([0, 1, 1, 2])))
+            shape = rng.choice(["archive", "archive", "archive", "archive", "nomarker", "free", "empty"])
+
+            def rel():
+                return "/".join(rng.choice(comps) for _ in range(rng.choice([1, 2, 2, 3, 4])))
+            if shape == "empty":
+                files = []
+            elif shape == "free":
+                files = [root + "/" + rel() for _ in range(rng.choice([1, 2, 3, 5]))]
+            else:
+                files = [root + "/data/" + rng.choice(["", "insights_commands/", "insights_containers/c1/"]) + rel() for _ in range(rng.choice([0, 1, 2, 3, 6]))]
+                files += [root + "/meta_data/pkg.Specs.s%d.json" % j for j in range(rng.choice([0, 1, 3]))]
+                if shape == "archive":
+                    files.append(root + "/insights_archive.txt")
+                rng.shuffle(files)
+            files = sorted(set(files), key=files.index)
+            # a file cannot also be a directory of another file
+            files = [f for f in files if not any(g != f and g.startswith(f + "/") for g in files)]
+            extras = bool(on_disk and files and rng.random() < 0.5)
+            case = {"op": "detect", "files": files, "root": root, "disk": on_disk, "shape": shape, "extras": extras}
+            try:
+                got = _detect_impl(files, root, on_disk, extras)
+            except Exception as ex:
+                chk.failure("archive detection raised %s: %s" % (type(ex).__name__, ex), case)
+                continue
+            ans = "invalid" if got is None else "ctx|%s|%s" % (enc(got[0]), enc(got[1]))
+            cases.append(case); impl.append(ans); roots.append(got)
+            lines.append("detect\t%s\t%s" % (reg_field, ";".join(enc(f) for f in files)))
+            chk.case(("detect", tuple(files)), bool(files))
+            chk.count("detect:%s -> %s" % (shape, got[0] if got else "InvalidArchive"))
+            # oracle (direct statement): a directory with the marker file at its top, data/ and meta_data/ is the serialized archive
+            # rooted there, unless a path component below it is the marker of a context registered later (known finding's shape)
+            if shape == "archive":
+                below = [c_ for f in files for c_ in f[len(root) + 1:].split("/")]
+                if got != ("SerializedArchiveContext", root):
+                    shadowed = any(c_ in later for c_ in below)
+                    chk.failure("a collected archive at %r is taken for %r" % (root, got), case,
+                                finding="marker-shadowing" if shadowed and got is not None and got[0] != "SerializedArchiveContext" else None)
+    finally:
+        shutil.rmtree(tmp, ignore_errors=True)
+    model = run_driver("C11", lines)
+    canon = []
+    for a, m, got in zip(impl, model, roots):
+        parts = m.split("|")
+        if len(parts) == 4 and parts[0] == "ctx" and got is not None:
+            # equal-length candidate roots are visited in set order by the implementation: any of them is the model's answer
+            mins = parts[3].split(";") if parts[3] else []
+            canon.append("ctx|%s|%s" % (parts[1], enc(got[1]) if enc(got[1]) in mins else parts[2]))
+        else:
+            canon.append(m)
+    chk.compare("archive detection: context and root", cases, impl, canon)
+
+
 def gen_dot_world(rng, wid):
     host = rng.random() < 0.6
     specs = [gen_dot_spec(rng, i, host) for i in range(rng.choice([2, 3, 4, 5]))]
@@ -1611,7 +1743,12 @@ def _run_world(w, desc, patterns, fail, count):
     lines.append("snap"); impl.append("ok"); keep.append(False)
     broker, err = hydrate_archive(w.out, not desc.get("frame"))
     if err:
-        fail("loading the intact archive raised / chose the wrong context: " + err, _case(desc), None)
+        # known finding marker-shadowing (predicate on the INPUT): some persisted location has a path COMPONENT that is
+        # the marker of a context class registered after SerializedArchiveContext
+        shadowed = any(c_ in LATER_MARKERS for loc in dst_count for c_ in loc.split("/"))
+        fail("loading the intact archive raised / chose the wrong context: " + err +
+             (" (a persisted location has a component in %s)" % sorted(LATER_MARKERS) if shadowed else ""), _case(desc),
+             "marker-shadowing" if shadowed and err.startswith("context ") else None)
         return lines, impl, keep
     intact = {}
     add_hydrate_answers(w, obs, broker, lines, impl, keep, intact)
@@ -2208,6 +2345,210 @@ def stream_big_raw(chk, sizes_all):
         shutil.rmtree(tmp, ignore_errors=True)
 
 
+# ----------------------------------------------------------------------------- Hydration used directly (no dr.run, no observer)
+
+DIRECT_ARGS = [None, None, "", 0, False, "x y", ["a", ""], [0, "b"], "/etc/é"]
+
+
+def _direct_case(chk, seed):
+    """ONE history on the public class Hydration itself: values put into a broker by hand (providers constructed directly, as a
+    datasource function may return them: CommandOutputProvider / container providers WITH a save_as in file and directory form),
+    exec_times absent / 0 / positive, dehydrate() called component by component (some twice; one Hydration for all or a fresh
+    one per call; default or custom meta_root / data_root; with or without a pool), then loaded through initialize_broker (or
+    Hydration.hydrate for custom roots).  Oracle: the property, clause by clause, on what was in the broker."""
+    import random
+    r = random.Random(seed)
+    case = {"op": "direct", "seed": seed}
+    tmp = tempfile.mkdtemp(prefix="c11h-")
+    out = os.path.join(tmp, "out")
+    os.makedirs(out)
+    outputs = {}
+    host = r.random() < 0.5
+    base = HostContext if host else ExecutionContext
+
+    class Ctx(base):
+        def check_output(self, cmd, timeout=None, keep_rc=False, env=None, signum=None):
+            o = outputs[" ".join(cmd[0])]
+            return (0, o) if keep_rc else o
+    pool = None
+    try:
+        ctx = Ctx(root=tmp) if host else Ctx()
+        mod = "c11h_%d" % uniq()
+        points = {"__module__": mod}
+        plan = []
+        for i in range(r.choice([1, 2, 3, 4])):
+            t = r.choice(["ds", "dslist", "cmd", "cmd", "cmdlist", "ccmd", "cfile"])
+            multi = t in ("dslist", "cmdlist") or (t in ("ccmd", "cfile") and r.random() < 0.5)
+            points["p%d" % i] = RegistryPoint(multi_output=multi)
+            plan.append((i, t, multi))
+        Specs = SpecSetMeta("Specs", (SpecSet,), points)
+        broker = dr.Broker()
+        broker[Ctx] = ctx
+        before = {}
+
+        def lines_():
+            return [l for l in gen_lines(r, False) if True] or ["x"]
+
+        def sa_(i, j):
+            form = r.choice(["none", "file", "dir"])
+            return None if form == "none" else ("S%d_%d" % (i, j) if form == "file" else "D%d_%d/" % (i, j))
+        for i, t, multi in plan:
+            vals = []
+            for j in range(r.choice([1, 2, 3]) if multi else 1):
+                sa = sa_(i, j)
+                if t in ("ds", "dslist"):
+                    ls = lines_()
+                    pv = DatasourceProvider(list(ls), r.choice(["", "/"]) + "ds%d/e%d" % (i, j), save_as=sa, ctx=ctx)
+                    kind = "datasource"
+                else:
+                    ls = lines_()
+                    text = "\n".join(ls) + "\n"
+                    args = r.choice(DIRECT_ARGS)
+                    if t in ("cmd", "cmdlist"):
+                        cmd = "/bin/echo c%d_%d_%d" % (i, j, uniq())
+                        outputs[cmd] = text
+                        pv = CommandOutputProvider(cmd, ctx, save_as=sa, args=args, keep_rc=r.random() < 0.3)
+                        kind = "command"
+                    elif t == "ccmd":
+                        cmd = "/usr/bin/env exec k%d_%d /bin/ls /x%d" % (i, j, uniq())
+                        outputs[cmd] = text
+                        pv = ContainerCommandProvider(cmd, ctx, image="img%d" % j, args=args)
+                        pv.save_as = sa
+                        kind = "containerCommand"
+                    else:
+                        cmd = "/usr/bin/env exec k%d_%d cat /etc/f%d" % (i, j, uniq())
+                        outputs[cmd] = text
+                        args = None            # (the factory passes args=None; serialize_container_file_output has no "args" field)
+                        pv = ContainerFileProvider(cmd, ctx, image="img%d" % j, args=args)
+                        pv.save_as = sa
+                        kind = "containerFile"
+                    ls = text.splitlines()
+                vals.append(pv)
+                before.setdefault(i, []).append({"lines": ls, "cmd": pv.cmd, "args": pv.args, "rel": pv.relative_path, "save_as": sa, "kind": kind,
+                                                 "image": getattr(pv, "image", None), "cid": getattr(pv, "container_id", None)})
+            pt = getattr(Specs, "p%d" % i)
+            broker[pt] = vals if multi else vals[0]
+            et = r.choice(["absent", "absent", 0, 0.25])
+            if et != "absent":
+                broker.exec_times[pt] = et
+            chk.count("direct:exec_time %s" % ("absent" if et == "absent" else "zero" if et == 0 else "positive"))
+            chk.count("direct:%s save_as forms %s" % (t, ",".join(sorted(set("none" if not b_["save_as"] else "dir" if b_["save_as"].endswith("/") else "file"
+                                                                                for b_ in before[i])))))
+        custom = r.random() < 0.25
+        kw = {"meta_root": "m", "data_root": "d"} if custom else {}
+        npool = r.choice([0, 0, 2])
+        if npool:
+            pool = ThreadPoolExecutor(npool)
+        shared = Hydration(out, ctx, pool=pool, **kw)
+        fresh_each = r.random() < 0.4
+        order = [x for x in plan]
+        r.shuffle(order)
+        order += [x for x in order if r.random() < 0.3]          # some components are persisted a second time
+        chk.count("direct:%s%s%s" % ("fresh Hydration per call" if fresh_each else "one Hydration", ", custom roots" if custom else "", ", pool" if npool else ""))
+        for i, t, multi in order:
+            h = Hydration(out, ctx, pool=pool, **kw) if fresh_each else shared
+            try:
+                h.dehydrate(getattr(Specs, "p%d" % i), broker)
+            except Exception as ex:
+                chk.failure("Hydration.dehydrate raised %s: %s" % (type(ex).__name__, ex), case)
+                return
+        with open(os.path.join(out, "insights_archive.txt"), "w"):
+            pass
+        try:
+            if custom:
+                loaded = Hydration(out, SerializedArchiveContext(out), **kw).hydrate()
+            else:
+                lctx, loaded = hydration.initialize_broker(out)
+                if not isinstance(lctx, SerializedArchiveContext):
+                    chk.failure("the archive is taken for a %s" % type(lctx).__name__, case)
+                    return
+        except Exception as ex:
+            chk.failure("loading raised %s: %s" % (type(ex).__name__, ex), case)
+            return
+        droot = os.path.join(out, "d" if custom else "data")
+        for i, t, multi in plan:
+            pt = getattr(Specs, "p%d" % i)
+            v = loaded.get(pt) if hasattr(loaded, "get") else None
+            got = [] if v is None else (list(v) if isinstance(v, list) else [v])
+            chk.case(("direct", seed, i), True)
+            if len(got) != len(before[i]) or (v is not None and isinstance(v, list) != multi):
+                chk.failure("direct dehydrate of %s: %d values persisted, %d loaded (list: %s, multi_output: %s)"
+                            % (t, len(before[i]), len(got), isinstance(v, list), multi), case)
+                continue
+            for b_, p_ in zip(before[i], got):
+                want = expected_location(b_["kind"], b_["rel"], b_["save_as"])
+                try:
+                    content = list(p_.content)
+                    obs = (p_.relative_path, p_.cmd, p_.args)
+                except Exception as ex:
+                    chk.failure("direct dehydrate of %s: the loaded provider cannot be read: %s: %s" % (t, type(ex).__name__, ex), case)
+                    continue
+                if obs[0] != want or not os.path.isfile(os.path.join(droot, want)):
+                    chk.failure("direct dehydrate of %s with save_as %r: loaded location %r, the save-as rules give %r (file there: %s)"
+                                % (t, b_["save_as"], obs[0], want, os.path.isfile(os.path.join(droot, want))), case)
+                if not lines_equal_up_to_one_trailing_empty(b_["lines"], content):
+                    chk.failure("direct dehydrate of %s: persisted lines %s, loaded %s" % (t, show_lines(b_["lines"]), show_lines(content)), case)
+                if obs[1] != b_["cmd"] or canon_args(obs[2]) != canon_args(b_["args"]):
+                    chk.failure("direct dehydrate of %s: command / arguments persisted %r %r, loaded %r %r" % (t, b_["cmd"], b_["args"], obs[1], obs[2]), case)
+                if b_["kind"].startswith("container") and (getattr(p_, "image", None), getattr(p_, "container_id", None)) != (b_["image"], b_["cid"]):
+                    chk.failure("direct dehydrate of %s: container identity persisted %r, loaded %r"
+                                % (t, (b_["image"], b_["cid"]), (getattr(p_, "image", None), getattr(p_, "container_id", None))), case)
+    finally:
+        if pool:
+            pool.shutdown()
+        shutil.rmtree(tmp, ignore_errors=True)
+
+
+def stream_direct(chk, n):
+    for _ in range(n):
+        _direct_case(chk, chk.rng.getrandbits(32))
+
+
+# ----------------------------------------------------------------------------- the collection entry point (child interpreter)
+
+def _collect_child(seed, n):
+    """-> (document or None, error text or None): harness/c11_collect_child.py under the tree under test"""
+    import subprocess
+    repo = os.environ.get("VERIF_REPO") or "/repo"
+    try:
+        pr = subprocess.run(["/venv/bin/python", os.path.join(VERIF, "harness", "c11_collect_child.py"), repo, str(seed), str(n)],
+                            stdout=subprocess.PIPE, stderr=subprocess.PIPE, timeout=150, cwd="/")
+    except subprocess.TimeoutExpired:
+        return None, "insights.collect.collect() / loading did not finish within 150 s"
+    try:
+        doc = json.loads(pr.stdout.decode("utf-8", "replace").strip().splitlines()[-1])
+        if not (isinstance(doc, dict) and isinstance(doc.get("cases"), list)):
+            raise ValueError("shape")
+    except Exception:
+        return None, "the child interpreter ended with status %s: %s" % (pr.returncode, pr.stderr.decode("utf-8", "replace")[-600:])
+    return doc, None
+
+
+def stream_collect(chk, n):
+    """GLUE: insights.collect.collect(manifest=...) — manifest as dict / yaml text / yaml file, persist list by names, strings or prefix
+    with later disabling entries, context class HostContext (by full and by short name) or a subclass defined by the spec module,
+    run_strategy serial or parallel, compress or not — over a generated spec module with real files and real commands, then
+    hydration.initialize_broker on the directory (or the extracted tar file).  Oracle: every persisted spec loads with the collected
+    lines / bytes, location, command and arguments; specs outside the persist list do not; a spec that failed during collection
+    (parallel + plain HostContext: the datasource timeout alarm cannot be armed in a pool thread) has a document with errors only."""
+    seed = chk.rng.getrandbits(24)
+    doc, err = _collect_child(seed, n)
+    if err or doc.get("fatal"):
+        chk.failure("collection entry point: " + (err or doc["fatal"]), {"op": "collect", "seed": seed, "k": n - 1})
+        return
+    if len(doc["cases"]) != n:
+        chk.failure("collection entry point: %d of %d collections reported" % (len(doc["cases"]), n), {"op": "collect", "seed": seed, "k": n - 1})
+    for c in doc["cases"]:
+        info = c.get("case", {})
+        chk.case(("collect", seed, info.get("k")), True)
+        chk.count("collect():%s, %s%s, persist by %s" % (info.get("ctx"), "parallel" if info.get("parallel") else "serial",
+                                                         ", tar" if info.get("compress") else "", info.get("persist")))
+        if info.get("failed_in_pool"):
+            chk.count("collect():components failed in the pool, persisted with errors", info["failed_in_pool"])
+        for pb in c.get("problems") or []:
+            chk.failure("collect() then initialize_broker(): " + pb, {"op": "collect", "seed": seed, "k": info.get("k")})
+
+
 # ----------------------------------------------------------------------------- witnesses of the known findings / regression cases of the repaired ones
 
 def witness_worlds():
@@ -2249,8 +2590,20 @@ def run(chk):
                 "with a cleaner, persisted by dr.run_all over the sub-graphs of one broker, destinations shared at random (same file through "
                 "two registry points with different filters, same save_as), a random subset failing at serialization (empty, empty after "
                 "filtering, empty after cleaning, CalledProcessError from load, destination that cannot be opened), order forced by "
-                "priorities / dependencies or left to the engine; non-trivial = the case's canonical key is new")
-    chk.assumptions = ["json, the UTF-8 codec, the file system and cp are not modelled (a meta_data file is classified by the harness as "
+                "priorities / dependencies or left to the engine; plus (round 10) archive detection: lists of file paths in the shape of collected archives (marker file, data/, meta_data/) and free lists whose "
+                "components are the context markers and their near misses (sos_commandsX, xsos_commands, sos_commands.d, JBOSS_HOME2, a file named "
+                "insights_archive.txt below data/), every fifth on disk with links and empty directories, against the model's createContext over the "
+                "registry read from the implementation; archives whose persisted locations carry those names (one in six with a real later marker = "
+                "known finding marker-shadowing); histories on Hydration itself: brokers filled by hand with directly constructed providers "
+                "(command and container providers with file- and directory-form save_as), exec_times absent / 0 / positive, components dehydrated "
+                "twice, one Hydration or a fresh one per call, custom meta_root / data_root, pool; and the collection entry point "
+                "insights.collect.collect() in a child interpreter (manifest as dict / yaml text / yaml file, persist by names / strings / prefix "
+                "with disabling entries, HostContext by full or short name or a subclass of the spec module, serial / parallel, tar or directory); "
+                "non-trivial = the case's canonical key is new")
+    chk.assumptions = ["archive detection: the ClusterArchiveContext short-cut for top-level compressed files and os.scandir are not modelled; "
+                       "os.path.commonprefix is modelled as the fold of the pairwise common prefix; equal-length candidate roots are visited in set "
+                       "order by the implementation (any of them is accepted)",
+                       "json, the UTF-8 codec, the file system and cp are not modelled (a meta_data file is classified by the harness as "
                        "unreadable / not JSON / wrong shape / document before the model sees it)",
                        "content that is not valid Unicode (lone surrogates from surrogateescape) is outside the property's quantifier and the model",
                        "tuple and list arguments are identified (JSON has no tuples)",
@@ -2263,6 +2616,9 @@ def run(chk):
     stream_prune(chk, 120 if quick else 3000)
     stream_names(chk, 400 if quick else 20000)
     stream_json(chk, 300 if quick else 20000)
+    stream_detect(chk, 300 if quick else 10000)
+    stream_direct(chk, 60 if quick else 1500)
+    stream_collect(chk, 24 if quick else 400)
     stream_big_raw(chk, [-1, 0, 1, 4096])
     stream_filter_budget(chk, 40 if quick else 600)
 
@@ -2321,9 +2677,10 @@ def run(chk):
 
     # ---- value types beyond the stock ones + second generation; specs collected through symbolic links
     for tag, gen, n_ in (("kinds", gen_kind_world, 40 if quick else 600), ("links", gen_link_world, 30 if quick else 600),
-                         ("errs", gen_errs_world, 60 if quick else 800), ("surr", gen_surr_world, 50 if quick else 800)):
+                         ("errs", gen_errs_world, 60 if quick else 800), ("surr", gen_surr_world, 50 if quick else 800),
+                         ("marks", gen_marker_world, 50 if quick else 800)):
         for wi in range(n_):
-            desc = gen(rng, {"kinds": 300000, "links": 400000, "errs": 500000, "surr": 600000}[tag] + wi)
+            desc = gen(rng, {"kinds": 300000, "links": 400000, "errs": 500000, "surr": 600000, "marks": 700000}[tag] + wi)
             pats = gen_patterns(rng, len(desc["specs"]), 1)
             ls, im, kp = run_world(desc, pats, fail, chk.count)
             all_lines += ls; all_impl += im; all_keep += kp
@@ -2394,6 +2751,40 @@ def replay(data):
         for f_ in probe.failures:
             print("ORACLE:", f_["desc"])
         bad = bool(probe.failures)
+    elif c.get("op") == "direct":
+        from harness.common import Check
+        probe = Check("C11", "quick", 0)
+        _direct_case(probe, c["seed"])
+        for f_ in probe.failures:
+            print("ORACLE:", f_["desc"])
+        bad = bool(probe.failures)
+    elif c.get("op") == "collect":
+        doc, err = _collect_child(c["seed"], (c.get("k") or 0) + 1)
+        probs = [err] if err else ([doc["fatal"]] if doc.get("fatal") else
+                                   [pb for cc in doc["cases"] if cc.get("case", {}).get("k") == c.get("k") for pb in cc.get("problems") or []])
+        for pb in probs:
+            print("ORACLE:", pb)
+        bad = bool(probs)
+    elif c.get("op") == "detect":
+        made = c["disk"] and not os.path.exists(c["root"])
+        try:
+            try:
+                got = _detect_impl(c["files"], c["root"], c["disk"], c.get("extras"))
+            except Exception as ex:
+                got = ("<%s: %s>" % (type(ex).__name__, ex), "")
+        finally:
+            if made:
+                top = c["root"]
+                while os.path.dirname(os.path.dirname(top)) not in ("/", ""):
+                    top = os.path.dirname(top)
+                if os.path.basename(top).startswith("c11d-"):
+                    shutil.rmtree(top, ignore_errors=True)
+        print("detected", got)
+        below = [c_ for f in c["files"] for c_ in f[len(c["root"]) + 1:].split("/")]
+        shadowed = any(c_ in LATER_MARKERS for c_ in below)
+        bad = (got is not None and got[0].startswith("<")) or \
+            (c.get("shape") == "archive" and got != ("SerializedArchiveContext", c["root"]) and
+             not (shadowed and got is not None and got[0] != "SerializedArchiveContext"))
     elif c.get("op") == "norm":
         f, s = c["factory"], c["save_as"]
         got = {"f": lambda: simple_file("/nope", save_as=s), "d": lambda: glob_file("/nope/*", save_as=s),
